@@ -40,8 +40,8 @@ CHECKS["C17"] = {
 
 CHECKS["C12"] = {
     "runs": [
-        R("./env", {"fn": r"^ZZ_C12_(values_step|path_step|external_step|copy_step|copy_ext_step|copy_binding_kinds|invalid_requests|addr_step|types_step_quick)$"},
-                   {"fn": r"^ZZ_C12_(values_step|path_step|external_step|copy_step|copy_ext_step|copy_binding_kinds|invalid_requests|addr_step|types_step)$"}),
+        R("./env", {"fn": r"^ZZ_C12_(values_step|path_step|external_step|copy_step|copy_ext_step|copy_binding_kinds|copy_tables_independent|invalid_requests|addr_step|types_step_quick)$"},
+                   {"fn": r"^ZZ_C12_(values_step|path_step|external_step|copy_step|copy_ext_step|copy_binding_kinds|copy_tables_independent|invalid_requests|addr_step|types_step)$"}),
         R("./env", {"fn": r"^ZZ_C12_history3$"}, thorough_only=True),
     ],
     "expect_asserts": [r"C12\.post-state", r"C12\.no-panic/GetEnvFromPath", r"C12\.copy-independent/copy", r"C12\.result/Set"],
